@@ -62,7 +62,7 @@ use std::path::{Path, PathBuf};
 
 """
 
-WORLD_FNS = ["lock", "pop", "push", "create", "open", "remove_file", "metadata", "append", "sync", "copy", "read", "next", "sorted_fileids",
+WORLD_FNS = ["lock", "pop", "push", "create", "open", "remove_file", "metadata", "append", "sync", "sync_all", "copy", "read", "next", "sorted_fileids",
              "flush", "put", "delete", "get", "merge", "write", "new_active_datafile", "fileids_to_merge",
              "rebuild_storage", "populate_keydir_with_hintfile", "populate_keydir_with_datafile", "set", "del"]
 R_GHOST_ARG = make_ghost_arg_rule(WORLD_FNS, skip_after={"get": ["keydir"]}, only_after={"get": ["reader"], "pop": ["readers"], "push": ["readers"]})
